@@ -241,6 +241,9 @@ def validateRow : List (ColType × Bool) → List Value → Option Err
 
 /-- `insert` → `tx_insert`: append a slot, add the row to every hash and B-tree index -/
 def insert (t : Table) (vals : List Value) : Except Err (Table × Nat) :=
+  -- the engine builds the slab row from the schema's column list (omitted column = NULL), so a stored row
+  -- always has the schema's width; a value list of another width is not an insert
+  if vals.length ≠ t.schema.length then .error .typeMismatch else
   match validateRow t.schema vals with
   | some e => .error e
   | none =>
